@@ -114,7 +114,9 @@ class FucSpec:
     def __init__(self, prop, file, qual, setup, post, fields=None, calls=None, loops=None, env=None, name=None,
                  exc_parents=None, exc_alias=None, subclass_of=None, subclass_of_closed=(), classes=(), absent_attrs=(),
                  getattr_hooks=None, setattr_hooks=None, hasattr_hooks=None, attr_hooks=None, subscript_hook=None,
-                 on_yield=None, max_paths=4000, replay=None, cover=(), trusted=(), note='', opts=None, clause=''):
+                 on_yield=None, max_paths=4000, replay=None, cover=(), trusted=(), note='', opts=None, clause='',
+                 field_alias=None):
+        self.field_alias = dict(field_alias or {})
         self.prop, self.file, self.qual = prop, file, qual
         self.name = name or qual
         self.setup, self.post = setup, post
@@ -197,6 +199,8 @@ def verify_fuc(spec, opts):
     prefix = []
     seen_unsupported = set()
     from . import state as _state
+    from . import interp as _interp
+    _interp.MODULAR_OWNER.clear()
     _state.OBL_CACHE.clear()
     del _state.DEFERRED[:]
     all_obls = []
@@ -215,6 +219,11 @@ def verify_fuc(spec, opts):
                 st.declare_field(f, k)
             args = spec.setup(I)
             ctx = {'pre': st.snapshot(), 'args': args, 'alloc0': st.alloc}
+            st.setup_len = len(st.pc)
+            fg = set()
+            for ls in spec.loops.values():
+                fg |= set(getattr(ls, 'frame_fields', ()))
+            st.frame_guard = fg
             I.frame = Frame({}, None, clsname)
             args = fill_defaults(I, fnode, args)
             outcome = I.run_function(fnode, args)
